@@ -345,6 +345,83 @@ def wipe_sequences(tier, rnd):
     return out
 
 
+# ---- an option file that changes the TYPE of an option, or disappears altogether
+RETYPE = ['string-to-integer', 'string-to-combo', 'combo-to-string', 'option-file-deleted', 'option-file-deleted-in-subproject']
+
+
+def run_retype(kind):
+    from mesonbuild.options import OptionKey
+    d = tempfile.mkdtemp(prefix='c08retype')
+    try:
+        src, build = os.path.join(d, 'src'), os.path.join(d, 'build')
+        os.makedirs(os.path.join(src, 'subprojects', 'sub'))
+        open(os.path.join(src, 'meson.build'), 'w').write("project('r')\nsubproject('sub')\n")
+        open(os.path.join(src, 'subprojects', 'sub', 'meson.build'), 'w').write("project('sub')\n")
+        optfile = os.path.join(src, 'meson.options') if kind != 'option-file-deleted-in-subproject' else os.path.join(src, 'subprojects', 'sub', 'meson.options')
+        sp = '' if kind != 'option-file-deleted-in-subproject' else 'sub'
+        first = "option('o', type: 'combo', choices: ['a', 'b'], value: 'a')\n" if kind == 'combo-to-string' else "option('o', type: 'string', value: 'abc')\n"
+        open(optfile, 'w').write(first + "option('keep', type: 'string', value: 'k')\n")
+        rc, out = meson(['setup', '--backend=none', build, src])
+        if rc != 0:
+            return f'setup failed: {out[-200:]}'
+
+        def value(name):
+            from mesonbuild import coredata as cdata
+            cd = cdata.load(build)               # what the last command persisted, as it is (no refresh from the option file)
+            k = OptionKey(name, sp)
+            return cd.optstore.get_value_for(k) if k in cd.optstore.options else None
+        if kind.startswith('option-file-deleted'):
+            os.unlink(optfile)
+        else:
+            second = {'string-to-integer': "option('o', type: 'integer', value: 3)\n", 'string-to-combo': "option('o', type: 'combo', choices: ['x', 'y'], value: 'y')\n",
+                      'combo-to-string': "option('o', type: 'string', value: 'free')\n"}[kind]
+            open(optfile, 'w').write(second + "option('keep', type: 'string', value: 'k')\n")
+        for n in (1, 2):
+            rc, out = meson(['setup', '--reconfigure', build, src])
+            if rc != 0:
+                return f'reconfigure #{n} after the edit failed: {out[-250:]}'
+        v = value('o')
+        pre = (sp + ':') if sp else ''
+        if kind.startswith('option-file-deleted'):
+            if v is not None:
+                return f'the option file is gone but the option o still exists with value {v!r}'
+            return None
+        if kind == 'string-to-integer':
+            if not isinstance(v, int) or isinstance(v, bool):
+                return f'the option is an integer option now, its value is {v!r}'
+            rc, out = meson(['configure', build, f'-D{pre}o=notanumber'])
+            if rc == 0:
+                return 'configure -Do=notanumber was accepted for an integer option'
+        elif kind == 'string-to-combo':
+            if v not in ('x', 'y'):
+                return f'the option is a combo of x / y now, its value is {v!r}'
+            rc, out = meson(['configure', build, f'-D{pre}o=nonsense'])
+            if rc == 0:
+                return 'configure -Do=nonsense was accepted for a combo option'
+        else:
+            rc, out = meson(['configure', build, f'-D{pre}o=anything goes'])
+            if rc != 0 or value('o') != 'anything goes':
+                return f'the option is a free string now, but configure -Do="anything goes" gives rc={rc}, value {value("o")!r}'
+        if value('keep') != 'k':
+            return f'the untouched option changed to {value("keep")!r}'
+        return None
+    finally:
+        shutil.rmtree(d, ignore_errors=True)
+
+
+def _retype_chunk(chunk):
+    fails, nt = [], 0
+    for kind in chunk:
+        nt += 1
+        try:
+            bad = run_retype(kind)
+        except Exception as e:
+            bad = f'harness: {type(e).__name__}: {e}'
+        if bad:
+            fails.append({'case': {'kind': kind}, 'stage': 'retype', 'detail': bad})
+    return len(chunk), nt, fails
+
+
 def _life_chunk(chunk):
     fails, nt = [], 0
     for seq in chunk:
@@ -379,15 +456,20 @@ def run(REG, tier, seed, jobs):
              (('conf-subopt', 'mine'), ('unset-subopt',), ('conf', 'level', 'two')), (('conf-subopt', 'one'), ('conf', 'level', 'two'), ('wipe',)),
              (('conf-subopt', 'mine'), ('reconf',), ('unset-subopt',), ('reconf',))]
     ev, nt, fails = pmap(_life_chunk, chunked(iter(seqs), 8), jobs)
+    rev_, rnt, rfails = pmap(_retype_chunk, chunked(iter(RETYPE), 1), jobs)
+    rpart = {'name': 'C08/bounded/retyped-or-deleted-option-file', 'function': 'meson setup; option-file edit; setup --reconfigure twice; configure -D (in process, --backend=none)',
+             'bound': f'{len(RETYPE)} edits: an option changes its type (string -> integer, string -> combo, combo -> string), the option file of the project / of a subproject is deleted; afterwards the option behaves as declared NOW (or is gone), every reconfigure succeeds, other options are untouched',
+             'evaluations': rev_, 'distinct_nontrivial': rnt, 'rule': 'every edit', 'exhaustive': True, 'failures': rfails}
     ws = wipe_sequences(tier, rnd)
     wev, wnt, wfails = pmap(_wipe_chunk, chunked(iter(ws), 4), jobs)
     wpart = {'name': 'C08/bounded/wipe-changes-nothing', 'function': 'meson setup -D...; configure -D...; setup --wipe [-D] (in process, --backend=none)',
              'bound': f'{len(ws)} histories: setup with 0-2 and configure with 0-2 of {len(ASSIGN)} interacting assignments ({", ".join(ASSIGN)}), then a plain `setup --wipe` (every option as before) and `setup --wipe -Dx` (as `configure -Dx`, and stable under another wipe)',
              'evaluations': wev, 'distinct_nontrivial': wnt, 'rule': 'every history', 'exhaustive': tier != 'quick', 'failures': wfails}
-    return {'parts': [wpart, {'name': 'C08/bounded/real-lifecycle-vs-reference-model', 'function': 'meson setup / configure / --reconfigure / --wipe (in process, --backend=none)',
+    return {'parts': [rpart, wpart, {'name': 'C08/bounded/real-lifecycle-vs-reference-model', 'function': 'meson setup / configure / --reconfigure / --wipe (in process, --backend=none)',
                        'bound': f'{len(seqs)} command sequences over {len(STEPS)} step kinds (configure -D valid/invalid/equal to current, -Dsub:/-Usub: override of a builtin option and of a yielding project option, option-file edits, reconfigure with/without -D, injected failure, wipe), persisted coredata and cmd_line.txt compared with a reference model after every step',
                        'evaluations': ev, 'distinct_nontrivial': nt, 'rule': 'non-trivial: at least two steps', 'exhaustive': False, 'failures': fails}]}
 
 
-CHECKS = {'C08/bounded/wipe-changes-nothing': (_wipe_chunk, lambda c: (tuple(c['setup']), tuple(c['configure']), c['wipe_with'])),
+CHECKS = {'C08/bounded/retyped-or-deleted-option-file': (_retype_chunk, lambda c: c['kind']),
+          'C08/bounded/wipe-changes-nothing': (_wipe_chunk, lambda c: (tuple(c['setup']), tuple(c['configure']), c['wipe_with'])),
           'C08/bounded/real-lifecycle-vs-reference-model': (_life_chunk, lambda c: tuple(tuple(s) for s in c['sequence']))}
